@@ -17,6 +17,9 @@
  *   a  dyn_array    slots 0..31; kind i=int u=u8 f=float(bits as hex) b=bool s=string a=nested array t=inline struct
  *   l  list_int     m  list_string      g  gc objects (structs with child references, strings, arrays)
  *   s  nl_string_t  c  nl_cstr_* helpers   p  helpers of the generated prelude (only in build (b))
+ *   h  the HashMap<K,V> runtime nanoc generates per instantiation (only in build (b) with NLV_HAVE_HASHMAPS: the
+ *      trivial program instantiates string/string, string/int, int/string, int/int); "hold" slots keep what
+ *      get / keys / values handed out so that it can be read again after later operations on the map
  *   H <id>          start of a history: forget all slots (objects the history did not release are leaked on purpose)
  */
 #ifndef NLV_HAVE_PRELUDE
@@ -481,6 +484,93 @@ static void hp_cstr_op(char **t, int nt) {
     free(b);
 }
 
+/* ---- generated HashMap<K,V> ------------------------------------------------------------------------------ */
+#ifdef NLV_HAVE_HASHMAPS
+static void *HM[NSLOT];
+static char HMT[NSLOT][3];          /* "ss" "si" "is" "ii" */
+static const char *HOLD_S[NSLOT];   /* strings handed out by get */
+static DynArray *HOLD_A[NSLOT];     /* arrays handed out by keys / values */
+
+static int hp_cmp_str(const void *a, const void *b) { return strcmp(*(const char * const *)a, *(const char * const *)b); }
+static int hp_cmp_int(const void *a, const void *b) {
+    int64_t x = *(const int64_t *)a, y = *(const int64_t *)b;
+    return x < y ? -1 : x > y ? 1 : 0;
+}
+
+/* contents of an array of keys / values in sorted order (the table order is not part of the contract) */
+static void hp_put_sorted(DynArray *a) {
+    int64_t n = dyn_array_length(a);
+    fputc('[', stdout);
+    if (dyn_array_get_elem_type(a) == ELEM_STRING) {
+        const char **v = malloc(sizeof(char *) * (size_t)(n ? n : 1));
+        for (int64_t i = 0; i < n; i++) v[i] = dyn_array_get_string(a, i);
+        qsort(v, (size_t)n, sizeof(char *), hp_cmp_str);
+        for (int64_t i = 0; i < n; i++) { if (i) fputc(' ', stdout); hp_putcstr(v[i]); }
+        free(v);
+    } else {
+        int64_t *v = malloc(sizeof(int64_t) * (size_t)(n ? n : 1));
+        for (int64_t i = 0; i < n; i++) v[i] = dyn_array_get_int(a, i);
+        qsort(v, (size_t)n, sizeof(int64_t), hp_cmp_int);
+        for (int64_t i = 0; i < n; i++) printf(i ? " %" PRId64 : "%" PRId64, v[i]);
+        free(v);
+    }
+    fputc(']', stdout);
+}
+
+#define HP_ARG_string(name, tok) char *name = hp_unhex(tok, NULL)
+#define HP_ARG_int(name, tok) int64_t name = hp_int(tok)
+/* string arguments are scribbled over and freed right after the call: the map must have made its own copy */
+#define HP_DROP_string(name) do { memset(name, 'X', strlen(name)); free(name); } while (0)
+#define HP_DROP_int(name) (void)name
+#define HP_SHOW_string(x) hp_putcstr(x)
+#define HP_SHOW_int(x) printf("%" PRId64, (int64_t)(x))
+#define HP_HOLD_string(slot, x) HOLD_S[slot] = (x)
+#define HP_HOLD_int(slot, x) (void)(slot)
+#define HP_RT_string const char *
+#define HP_RT_int int64_t
+
+#define HP_HASHMAP(K, V) \
+static void hp_hm_##K##_##V(char **t, int nt, int s) { \
+    HashMap_##K##_##V *m = (HashMap_##K##_##V *)HM[s]; \
+    const char *op = t[0]; \
+    (void)nt; \
+    if (!strcmp(op, "hn")) { m = nl_hashmap_##K##_##V##_new(); HM[s] = m; fputs(m ? " = ok" : " = NULL", stdout); } \
+    else if (!strcmp(op, "hp")) { HP_ARG_##K(k, t[2]); HP_ARG_##V(v, t[3]); nl_hashmap_##K##_##V##_put(m, k, v); HP_DROP_##K(k); HP_DROP_##V(v); fputs(" = ok", stdout); } \
+    else if (!strcmp(op, "hg")) { HP_ARG_##K(k, t[2]); fputs(" = ", stdout); HP_SHOW_##V(nl_hashmap_##K##_##V##_get(m, k)); HP_DROP_##K(k); } \
+    else if (!strcmp(op, "hG")) { HP_ARG_##K(k, t[2]); int hs = atoi(t[3]); HP_RT_##V r = nl_hashmap_##K##_##V##_get(m, k); HP_DROP_##K(k); \
+                                  HP_HOLD_##V(hs, r); fputs(" = ", stdout); HP_SHOW_##V(r); } \
+    else if (!strcmp(op, "hh")) { HP_ARG_##K(k, t[2]); printf(" = %d", nl_hashmap_##K##_##V##_has(m, k) ? 1 : 0); HP_DROP_##K(k); } \
+    else if (!strcmp(op, "hr")) { HP_ARG_##K(k, t[2]); nl_hashmap_##K##_##V##_remove(m, k); HP_DROP_##K(k); fputs(" = ok", stdout); } \
+    else if (!strcmp(op, "hl")) { printf(" = %" PRId64, nl_hashmap_##K##_##V##_length(m)); } \
+    else if (!strcmp(op, "hx")) { nl_hashmap_##K##_##V##_clear(m); fputs(" = ok", stdout); } \
+    else if (!strcmp(op, "hk")) { DynArray *a = nl_hashmap_##K##_##V##_keys(m); HOLD_A[atoi(t[2])] = a; fputs(" = ", stdout); hp_put_sorted(a); } \
+    else if (!strcmp(op, "hv")) { DynArray *a = nl_hashmap_##K##_##V##_values(m); HOLD_A[atoi(t[2])] = a; fputs(" = ", stdout); hp_put_sorted(a); } \
+    else if (!strcmp(op, "hf")) { nl_hashmap_##K##_##V##_free(m); HM[s] = NULL; fputs(" = ok", stdout); return; } \
+    else { fputs(" = badop", stdout); return; } \
+    printf(" | size=%" PRId64, nl_hashmap_##K##_##V##_length((HashMap_##K##_##V *)HM[s])); \
+}
+
+HP_HASHMAP(string, string)
+HP_HASHMAP(string, int)
+HP_HASHMAP(int, string)
+HP_HASHMAP(int, int)
+
+static void hp_hashmap_op(char **t, int nt) {
+    const char *op = t[0];
+    int s = nt > 1 ? atoi(t[1]) : 0;
+    if (s < 0 || s >= NSLOT) { fputs(" = badslot", stdout); return; }
+    if (!strcmp(op, "hH")) { fputs(" = ", stdout); hp_putcstr(HOLD_S[s]); return; }       /* read a held string again */
+    if (!strcmp(op, "hA")) { fputs(" = ", stdout); hp_put_sorted(HOLD_A[s]); return; }    /* read a held array again */
+    if (!strcmp(op, "hn")) { HMT[s][0] = t[2][0]; HMT[s][1] = t[2][1]; HMT[s][2] = 0; }
+    if (!strcmp(HMT[s], "ss")) hp_hm_string_string(t, nt, s);
+    else if (!strcmp(HMT[s], "si")) hp_hm_string_int(t, nt, s);
+    else if (!strcmp(HMT[s], "is")) hp_hm_int_string(t, nt, s);
+    else hp_hm_int_int(t, nt, s);
+}
+#else
+static void hp_hashmap_op(char **t, int nt) { (void)t; (void)nt; fputs(" = unsupported", stdout); }
+#endif
+
 int main(void) {
     static char line[1 << 16];
     char *tok[MAXTOK];
@@ -499,6 +589,9 @@ int main(void) {
         if (!strcmp(tok[0], "H")) {
             memset(A, 0, sizeof A); memset(LI, 0, sizeof LI); memset(LS, 0, sizeof LS);
             memset(G, 0, sizeof G); memset(S, 0, sizeof S);
+#ifdef NLV_HAVE_HASHMAPS
+            memset(HM, 0, sizeof HM); memset(HOLD_S, 0, sizeof HOLD_S); memset(HOLD_A, 0, sizeof HOLD_A);
+#endif
             hp_gc_base = gc_get_stats().num_objects;
             fputs(" = start", stdout);
         } else {
@@ -509,6 +602,7 @@ int main(void) {
                 case 'g': hp_gc_op(tok, nt); break;
                 case 's': hp_str_op(tok, nt); break;
                 case 'c': case 'p': hp_cstr_op(tok, nt); break;
+                case 'h': hp_hashmap_op(tok, nt); break;
                 default: fputs(" = badop", stdout);
             }
         }
